@@ -1505,6 +1505,9 @@ impl Linearizer {
             Comparison::Equal => ValueRequirement::Exact,
         };
         let value = exp.linearize(self, requirement)?;
+        if !value.is_finite() {
+            return Err(LinearizationError::NonFiniteConstant(Box::new(exp)));
+        }
         self.linear_constraints
             .push(MidLinearConstraint::new_from_linearized_context(
                 value, comparison, name,
@@ -1568,6 +1571,9 @@ impl Linearizer {
             OptimizationType::Satisfy => ValueRequirement::Exact,
         };
         let linearized_objective = objective_exp.linearize(&mut context, objective_requirement)?;
+        if !linearized_objective.is_finite() {
+            return Err(LinearizationError::NonFiniteConstant(Box::new(objective_exp)));
+        }
         while let Some(constraint) = context.pop_constraint() {
             let is_logic_assertion = constraint.is_logic_assertion();
             let (lhs, op, rhs, name) = constraint.into_parts();
@@ -1688,6 +1694,9 @@ pub enum LinearizationError {
     DivisionByZero(Box<Exp>),
     EmptyAggregation(&'static str),
     VarAlreadyDeclared(String),
+    /// An infinite or undefined constant (Infinity, Infinity - Infinity,
+    /// 0 * Infinity) would become a coefficient, right-hand side or offset
+    NonFiniteConstant(Box<Exp>),
     UnimplementedExpression(Box<Exp>),
     NonBinaryLogicOperand(Box<Exp>),
     MissingFiniteBounds {
@@ -1717,6 +1726,13 @@ impl Display for LinearizationError {
             }
             LinearizationError::VarAlreadyDeclared(name) => {
                 write!(f, "Variable \"{}\" already declared", name)
+            }
+            LinearizationError::NonFiniteConstant(exp) => {
+                write!(
+                    f,
+                    "Infinite or undefined constant in expression: \"{}\"",
+                    exp
+                )
             }
             LinearizationError::UnimplementedExpression(exp) => {
                 write!(f, "Unimplemented expression: \"{}\"", exp)
@@ -1847,6 +1863,11 @@ impl LinearizationContext {
     /// Returns the constant term (RHS).
     pub fn rhs(&self) -> f64 {
         self.current_rhs
+    }
+
+    /// Whether every coefficient and the constant term are finite numbers.
+    pub fn is_finite(&self) -> bool {
+        self.current_rhs.is_finite() && self.current_vars.values().all(|value| value.is_finite())
     }
 
     #[allow(unused)]
